@@ -19,6 +19,7 @@
 package cstate
 
 import (
+	"errors"
 	"fmt"
 
 	"github.com/kardiachain/go-kardia/trie"
@@ -73,6 +74,9 @@ func validateBlock(evidencePool EvidencePool, store Store, state LatestBlockStat
 	}
 
 	// Validate block LastCommit
+	if block.LastCommit() == nil {
+		return errors.New("nil LastCommit")
+	}
 	if block.Height() == state.InitialHeight {
 		if len(block.LastCommit().Signatures) != 0 {
 			return ErrLastCommitSig
